@@ -33,15 +33,19 @@ Fixpoint dropZ (n : Z) (l : list Z) : list Z :=
   | x :: t => if n <=? 0 then l else dropZ (n - 1) t
   end.
 Fixpoint lenZ (l : list Z) : Z := match l with [] => 0 | _ :: t => 1 + lenZ t end.
+Definition list_eqb (a b : list Z) : bool :=
+  (lenZ a =? lenZ b) && forallb (fun p => fst p =? snd p) (combine a b).
 Fixpoint repZ (x : Z) (n : nat) : list Z := match n with O => [] | S k => x :: repZ x k end.
 
 (** checked memory: a fixed-size array; every access outside it is [None] (= Fault) *)
 Definition mread (m : list Z) (i : Z) : option Z :=
   if 0 <=? i then match dropZ i m with x :: _ => Some x | [] => None end else None.
+(* [fits m n]: n <= length m, computed without walking the whole array *)
+Definition fits (m : list Z) (n : Z) : bool := lenZ (takeZ n m) =? Z.max 0 n.
 Definition mreadn (m : list Z) (off n : Z) : option (list Z) :=
-  if (0 <=? off) && (0 <=? n) && (off + n <=? lenZ m) then Some (takeZ n (dropZ off m)) else None.
+  if (0 <=? off) && (0 <=? n) && fits m (off + n) then Some (takeZ n (dropZ off m)) else None.
 Definition mwrite (m : list Z) (off : Z) (d : list Z) : option (list Z) :=
-  if (0 <=? off) && (off + lenZ d <=? lenZ m) then Some (takeZ off m ++ d ++ dropZ (off + lenZ d) m) else None.
+  if (0 <=? off) && fits m (off + lenZ d) then Some (takeZ off m ++ d ++ dropZ (off + lenZ d) m) else None.
 
 (** events, printed by the driver in the harness's token format *)
 Inductive ev :=
@@ -52,15 +56,19 @@ Inductive ev :=
 | Dn (d : list Z)                    (* D<hex>: one send on the base socket *)
 | Snd (r : Z)                        (* S<ret>: return of a send through the layer *)
 | Mark (n : Z)                       (* not printed: the call went through a known-defective path *)
+| Hdr (n : Z)                        (* not printed: a frame header was decoded that announces n bytes of buffer *)
 | EFault                             (* FAULT *)
 | ELive.                             (* the call consumed nothing although bytes were pending *)
 
 Inductive prog (S : Type) : Type :=
 | PDone (s : S) (r : Z)
 | PRead (strict : bool) (req : Z) (k : list Z -> prog S)
-| PEv (e : ev) (p : prog S)
+| PUp (d : list Z) (z : Z) (p : prog S)
+| PDn (d : list Z) (p : prog S)
+| PMark (n : Z) (p : prog S)
+| PHdr (n : Z) (p : prog S)
 | PFault.
-Arguments PDone {S}. Arguments PRead {S}. Arguments PEv {S}. Arguments PFault {S}.
+Arguments PDone {S}. Arguments PRead {S}. Arguments PUp {S}. Arguments PDn {S}. Arguments PMark {S}. Arguments PHdr {S}. Arguments PFault {S}.
 
 Fixpoint exec {S} (p : prog S) (kb : list Z) : option (S * Z) * list Z * list ev :=
   match p with
@@ -68,13 +76,17 @@ Fixpoint exec {S} (p : prog S) (kb : list Z) : option (S * Z) * list Z * list ev
   | PRead st req k =>
       let d := takeZ req kb in
       let '(o, kb2, e) := exec (k d) (dropZ req kb) in (o, kb2, Rd st req (lenZ d) :: e)
-  | PEv e p => let '(o, kb2, es) := exec p kb in (o, kb2, e :: es)
+  | PUp d z p => let '(o, kb2, es) := exec p kb in (o, kb2, Up d z :: es)
+  | PDn d p => let '(o, kb2, es) := exec p kb in (o, kb2, Dn d :: es)
+  | PMark n p => let '(o, kb2, es) := exec p kb in (o, kb2, Mark n :: es)
+  | PHdr n p => let '(o, kb2, es) := exec p kb in (o, kb2, Hdr n :: es)
   | PFault => (None, kb, [EFault])
   end.
 
 (** layer state + liveness: 0 alive, 1 error returned, 2 Fault, 3 livelock *)
 Record wst (S : Type) := { inner : S; dead : Z }.
 Arguments inner {S}. Arguments dead {S}.
+Definition alive {S} (s : S) : wst S := {| inner := s; dead := 0 |}.
 
 Fixpoint drain {S} (body : S -> prog S) (fuel : nat) (s : S) (kb : list Z) : wst S * list ev :=
   match kb with
@@ -118,9 +130,10 @@ Definition vis (f : ev -> list obs) (es : list ev) : list obs := flat_map f es.
 
 (** a call is clean when every strict read was satisfied in full and no defective path was taken *)
 Definition ev_clean (e : ev) : bool :=
-  match e with Rd true req got => req =? got | Mark _ => false | _ => true end.
+  match e with Rd true req got => req <=? got | Mark _ => false | _ => true end.
 Definition clean (es : list ev) : bool := forallb ev_clean es.
-Definition ev_full (e : ev) : bool := match e with Rd _ req got => req =? got | _ => true end.
+Definition ev_full (e : ev) : bool := match e with Rd _ req got => req <=? got | _ => true end.
 Definition all_full (es : list ev) : bool := forallb ev_full es.
 
-Definition be16 (a b : Z) : Z := a * 256 + b.
+(* big-endian 16-bit value of two bytes (reduced mod 256, so that it is in range for any Z) *)
+Definition be16 (a b : Z) : Z := (a mod 256) * 256 + b mod 256.
